@@ -15,7 +15,8 @@ LEVEL_TEXT = ("Every type of the grammar T ::= INT | STRING | ARRAY<T> | MAP<STR
               "exactly what they are next to a plain type."
               " Also: every size form x every array suffix, sized two-word types, two options after the type, the table placed after an unsupported statement with a lone '<' / '>' and after a nested-type table, and 6 x 6 pairs of parameterised types side by side."
               " Contexts also include an earlier statement with a CHECK clause (column-level and via ALTER)."
-              " Defect hunt / wave 5: a neighbouring column that carries a CHECK clause, field and element names that contain 'identity'.")
+              " Defect hunt / wave 5: a neighbouring column that carries a CHECK clause, field and element names that contain 'identity'."
+              ' Wave 6: a neighbouring parenthesis-less GENERATED ALWAYS AS IDENTITY column.')
 LEVEL_NOTE = ("Nesting depth bound 2 (4 thorough); element types INT and STRING only; one parameterised type per table except the "
               "6 x 6 side-by-side pairs; the table is also placed after an unsupported statement with a lone < or > and after a table with "
               "a nested type. (n CHAR) sizes are not combined with the [] suffix (no dialect has both).")
